@@ -5,6 +5,7 @@ package main
 // native "vxsql" driver does under the real database/sql.
 
 import (
+	"sort"
 	"go/types"
 )
 
@@ -18,6 +19,7 @@ type sqlTx struct {
 	db   *sqlDB
 	id   int
 	done bool
+	ctx  *nativeCtx // the context the transaction was begun with (database/sql rolls it back when that context ends)
 }
 
 type sqlRow struct {
@@ -95,7 +97,11 @@ func registerSQL(e *Engine) {
 			m = map[*Value]*sqlTx{}
 			ex.ghost["sqltx"] = m
 		}
-		m[&cell] = &sqlTx{db: d, id: id}
+		t := &sqlTx{db: d, id: id}
+		if it, ok := args[1].(iface); ok {
+			t.ctx, _ = it.v.(*nativeCtx)
+		}
+		m[&cell] = t
 		return tuple{&cell, iface{}}
 	})
 	execDB := func(ex *Exec, fr *frame, args []Value, qi int) Value {
@@ -195,4 +201,29 @@ func registerSQL(e *Engine) {
 	e.reg("(*database/sql.DB).SetMaxIdleConns", nop)
 	e.reg("(*database/sql.DB).SetConnMaxLifetime", nop)
 	e.reg("(*database/sql.DB).PingContext", func(ex *Exec, fr *frame, args []Value) Value { return iface{} })
+}
+
+// sqlContextCancelled is database/sql's watcher: a transaction begun with a
+// context is rolled back when that context (or an ancestor) is cancelled.
+func (ex *Exec) sqlContextCancelled(c *nativeCtx) {
+	m, _ := ex.ghost["sqltx"].(map[*Value]*sqlTx)
+	var txs []*sqlTx
+	for _, t := range m {
+		if t.done || t.ctx == nil {
+			continue
+		}
+		for p := t.ctx; p != nil; {
+			if p == c {
+				txs = append(txs, t)
+				break
+			}
+			pp, _ := p.parent.v.(*nativeCtx)
+			p = pp
+		}
+	}
+	sort.Slice(txs, func(i, j int) bool { return txs[i].id < txs[j].id })
+	for _, t := range txs {
+		t.done = true
+		ex.sqlCall(nil, t.db, "rollback", "", t.id)
+	}
 }
